@@ -14,7 +14,7 @@ J2  IOOrder instances are realised as tree sequences (each edge on its own inter
     the specification's sequences (the last one up to key ties), and the real outside_pass must
     use exactly the messages of the model.  InsideOutside instances x renumberings are replayed
     through the table doubles: the posterior mapped through the renumbering equals TLC's.
-J3  metamorphic pairs on simulated inputs (contemporaneous samples, no ignore_oldest_root):
+Real metamorphic pairs on simulated inputs (contemporaneous samples, no ignore_oldest_root):
     tsdate.inside_outside and tsdate.maximization before / after (i) a random renumbering of the
     non-sample nodes, (ii) a random valid re-timing of the non-sample input times (unrelated
     nodes may swap order), (iii) both; returned node times mapped through the permutation agree
@@ -86,8 +86,8 @@ def run(ctx):
     ]
     _, dags = bp.order_run(ctx, "c11_o", NS=2, NI=3, max_edges=5 if q else 6, tmax=3, emit=True)
     _, insts = bp.io_run(ctx, "c11_io", NS=4, NI=3, G=2, vals=(0, 1, 2), perms="all", mode="hash",
-                         seeds=range(1, 3 if q else 10), canon=True, min_kids=2, emit=True)
-    bp.max_run(ctx, "c11_m", NS=2, NI=3, G=2, mult=1 if q else 2, max_edges=2 if q else 3, ins=(0, 1), lik=(1, 2))
+                         seeds=range(1, 7 if q else 40), canon=q, min_kids=2, emit=True)
+    bp.max_run(ctx, "c11_m", NS=2, NI=3, G=2, mult=1, max_edges=2 if q else 3, ins=(0, 1), lik=(1, 2))
     bp.tick(ctx, "tlc")
     bp.tsd()
     bp.tick(ctx, "import_tsdate")
